@@ -230,3 +230,70 @@ class from_file:
         "rows": "forall(lambda i: close_mol_row(result, i, stored(path), i, "
                 "0 if fmt_of_suffix(path) == 'parquet' else csv_tolerance(4)), (0, stored(path).n))",
     }
+
+
+# ---------------------------------------------------------------------------
+# the two readers on their own: custom coordinate column names are forwarded to from_dataframe
+_CUSTOM = ("pz", "py", "px", "rz", "ry", "rx", "f0")
+
+
+class TCustomFile(TSpec):
+    """ghost: a stored table whose coordinate columns have custom names, in the given format"""
+
+    def __init__(self, fmt):
+        self.fmt, self.value = fmt, fmt
+
+    def fresh(self, name, path):
+        TStoredFile("custom." + self.fmt, _CUSTOM, precision=None, fmt=self.fmt).fresh("stored", path)
+        return "custom." + self.fmt
+
+    def src(self, name, model):
+        n = max(int(_mget(model, "df_rows", 4)), 0)
+        writer = "write_parquet" if self.fmt == "parquet" else "write_csv"
+        return ("(lambda p: (_pl.DataFrame({'pz': np.arange(%d) * 1.5, 'py': np.arange(%d) * 2.0 + 1, 'px': np.arange(%d) * 0.5, "
+                "'rz': np.arange(%d) * 0.1, 'ry': np.arange(%d) * -0.2, 'rx': np.arange(%d) * 0.05, "
+                "'f0': (np.arange(%d) * 3 + 2) %% 5 * 2.5}).%s(p), p)[1])(tmp_path('custom.%s'))" % ((n,) * 7 + (writer, self.fmt)))
+
+
+def custom_row_is(mol, j, frame, i):
+    parts = [V.compare("==", mol.attrs["_pos"].at((j, a)), frame.cols[c].at((i,))) for a, c in enumerate(("pz", "py", "px"))]
+    parts.append(mateq(M(mol.attrs["_rotator"], j), rv_matrix(frame, i, ("rz", "ry", "rx"))))
+    f = mol.attrs["_features"]
+    if f is None or "f0" not in f.cols:
+        return False
+    parts.append(V.compare("==", f.cols["f0"].at((j,)), frame.cols["f0"].at((i,))))
+    return V.sand(*parts)
+
+
+def _native_custom_ok(result, path):
+    import numpy as np
+    import polars as pl
+    from scipy.spatial.transform import Rotation
+    df = pl.read_parquet(path) if str(path).endswith("parquet") else pl.read_csv(path)
+    n = df.shape[0]
+    ok = len(result) == n and list(result.features.columns) == ["f0"]
+    if n:
+        ok = ok and np.allclose(result.pos, df.select(["pz", "py", "px"]).to_numpy(), atol=1e-5)
+        want = Rotation.from_rotvec(df.select(["rz", "ry", "rx"]).to_numpy()).as_matrix()
+        ok = ok and np.allclose(result.rotator.as_matrix(), want, atol=1e-5)
+        ok = ok and result.features["f0"].to_list() == df["f0"].to_list()
+    return bool(ok)
+
+
+for _fmt, _fn in (("csv", "from_csv"), ("parquet", "from_parquet")):
+    @contract(f"acryo.molecules.core:Molecules.{_fn}", props=["C13"])
+    class reader:
+        """the reader of its own format; custom position / rotation-vector column names reach from_dataframe unchanged
+        (positions from pos_cols, orientations from rot_cols, everything else is a feature)"""
+        params = dict(cls=T.Class("acryo.molecules.core:Molecules", "_Molecules"), path=TCustomFile(_fmt),
+                      pos_cols=T.Const(["pz", "py", "px"]), rot_cols=T.Const(["rz", "ry", "rx"]))
+        helpers = dict(_HRD, stored=stored, custom_row_is=custom_row_is)
+        native_helpers = dict(_NH, _native_custom_ok=_native_custom_ok)
+        imports = _IMPORTS + _TMP
+        native_call = f"_Molecules.{_fn}(args['path'], args['pos_cols'], args['rot_cols'])"
+        native = {"count": "True", "rows": "_native_custom_ok(result, path)", "features": "list(result.features.columns) == ['f0']"}
+        ensures = {
+            "count": "n_of(result) == stored(path).n",
+            "features": "feature_names(result) == ['f0']",
+            "rows": "forall(lambda i: custom_row_is(result, i, stored(path), i), (0, stored(path).n))",
+        }
